@@ -44,8 +44,9 @@ ASSUMPTIONS = [
 RULE = ("kernel cases: every (N, L) with N <= 40 (quick) / 80 (thorough) incl. L > N and negative L; discs for rows/cols 1..24 "
         "(quick) and sampled up to 80; generator cases: return_acs and mask with the same seed, every generator x mode; "
         "non-trivial = 1 <= L < N (kernels) / a returned ACS with at least one sample (generators); distinct = distinct protocol line")
-PENDING_FINDINGS: list[str] = []
-EXTRA_LEAN_MODULES = ['DirectVerif.Lemmas.C04List', 'DirectVerif.Lemmas.C06Assemble']
+PENDING_FINDINGS: list[str] = ["acs-not-subset-VariableDensityPoisson/crop_corner"]
+EXTRA_LEAN_MODULES = ['DirectVerif.Lemmas.C04List', 'DirectVerif.Lemmas.C06Assemble', 'DirectVerif.Lemmas.C06Seed',
+                      'DirectVerif.Lemmas.C06Round']
 
 
 # --------------------------------------------------------------------------------------------------
@@ -144,9 +145,12 @@ def correspondence(ctx: Ctx):
     # ---- generators: return_acs and the mask with the same seed
     from props.c04 import generator_cases
 
-    yield from generator_cases(ctx, ctx.budget(6, 150), acs=True)
+    for c in generator_cases(ctx, ctx.budget(6, 150), acs=True):
+        if c["line"].startswith("gen"):       # only the generator-level lines (C04 owns the other ops of this stream)
+            yield c
     yield from float_glue_cases(ctx)
     yield from history_cases(ctx)
+    yield from poisson_crop_cases(ctx)
 
 
 # --------------------------------------------------------------------------------------------------
@@ -211,6 +215,37 @@ def float_glue_cases(ctx: Ctx):
                "bucket": f"kernel/num_low_exact/{name}" + ("/tie" if tie else "") + ("" if res.get("ok") else "/rejected")}
 
 
+VDP_CROP_WITNESS = {"gen": "VariableDensityPoisson", "mode": "static", "shape": [24, 8, 2], "acc": 2, "cf": 0.5, "seed": 1,
+                    "return_acs": False, "extra": {"crop_corner": True, "max_attempts": 5}}
+VDP_CROP_KEY = "acs-not-subset-VariableDensityPoisson/crop_corner"
+
+
+def poisson_crop_cases(ctx: Ctx):
+    """one VariableDensityPoisson frame as the code assembles it — `(raster | disc) & (r < 1)` when `crop_corner` —
+    against the model (`Model/C06Crop.lean`); the real mask itself stands for the raster; the model also says whether
+    the ACS disc is a subset of the frame"""
+    rng = ctx.rng
+    shapes = [(24, 8), (8, 24), (16, 16), (12, 12), (13, 12), (15, 15), (32, 8), (20, 10), (9, 16), (16, 9)]
+    cases = [dict(VDP_CROP_WITNESS)]
+    for _ in range(ctx.budget(10, 80)):
+        rows, cols = rng.choice(shapes)
+        cases.append({"gen": "VariableDensityPoisson", "mode": "static", "shape": [rows, cols, 2], "acc": rng.choice([2, 3, 4]),
+                      "cf": rng.choice([0.1, 0.2, 0.3, 0.5]), "seed": rng.randrange(1000), "return_acs": False,
+                      "extra": {"crop_corner": rng.random() < 0.7, "max_attempts": 5}})
+    for spec in cases:
+        rows, cols = spec["shape"][-3], spec["shape"][-2]
+        mask, acs = run(spec), run(dict(spec, return_acs=True))
+        radius = G.disc_radius(rows, cols, spec["cf"])
+        if not (mask.get("ok") and acs.get("ok") and mask.get("rows") and len(mask["rows"]) == rows):
+            ctx.hist["kernel/poisson_crop/raised"] = ctx.hist.get("kernel/poisson_crop/raised", 0) + 1
+            continue
+        sub = not any(a & ~m for a, m in zip(acs["rows"], mask["rows"]))
+        a = "ok " + ints(mask["rows"]) + " | " + ("1" if sub else "0")
+        crop = bool(spec["extra"].get("crop_corner"))
+        yield {"line": line("poisson_crop", [rows, cols, radius, 1 if crop else 0], mask["rows"]), "impl": (lambda a=a: a),
+               "nontrivial": radius >= 1, "bucket": "kernel/poisson_crop/" + ("crop" if crop else "plain") + ("" if sub else "/acs-not-subset")}
+
+
 _ERR_CODE = {"ValueError": 1, "RuntimeError": 2, "IndexError": 3}
 
 
@@ -272,7 +307,13 @@ def check_acs(spec: dict, acs: dict, mask: dict, pair=None):
         yield f"acs-shape-{name}", f"{name}: ACS shape {acs['shape']} differs from mask shape {mask['shape']}"
         return
     if any(a & ~m for a, m in zip(A, M)):
-        yield f"acs-not-subset-{name}", f"{name} ({mode}): the ACS mask is not a subset of the sampling mask (same seed)"
+        lost = sum(bin(a & ~m).count("1") for a, m in zip(A, M))
+        if name == "VariableDensityPoisson" and spec.get("extra", {}).get("crop_corner"):
+            # finding on the current tree: `poisson` crops the corners AFTER OR-ing the disc, return_acs returns the whole disc
+            yield VDP_CROP_KEY, (f"{name} crop_corner=True, shape {shape}, centre fraction {cf}: {lost} cell(s) of the ACS disc lie outside "
+                                 f"the inscribed ellipse and are cropped out of the sampling mask (same seed), not out of the ACS")
+        else:
+            yield f"acs-not-subset-{name}", f"{name} ({mode}): the ACS mask is not a subset of the sampling mask (same seed): {lost} cell(s)"
     fam = G.FAMILY[name]
     if fam in ("line", "ktline"):
         want = acs_lines(name, cols, acc, cf)
@@ -309,6 +350,22 @@ def check_acs(spec: dict, acs: dict, mask: dict, pair=None):
                    and 0 <= 2 * cx - x < rows and 0 <= 2 * cy - y < cols and not grid[2 * cx - x][2 * cy - y]]
             if bad:
                 yield f"acs-not-symmetric-{name}", f"{name}: disc not point-symmetric about ({cx},{cy}): {bad[:3]}"
+    elif name in ("Radial", "Spiral"):
+        # CIRCUS without centre fraction: the ACS is the sampled part of a disc about the centre sample — every sampled
+        # cell at most as far from the centre as the farthest ACS cell belongs to it (frame by frame)
+        cx, cy = rows // 2, cols // 2
+        for f in range(F):
+            fa, fm = A[f * rows:(f + 1) * rows], M[f * rows:(f + 1) * rows]
+            cells = [(x, y) for x in range(rows) for y in range(cols) if (fa[x] >> y) & 1]
+            if not cells:
+                continue
+            far = max((x - cx) ** 2 + (y - cy) ** 2 for x, y in cells)
+            miss = [(x, y) for x in range(rows) for y in range(cols)
+                    if (fm[x] >> y) & 1 and not (fa[x] >> y) & 1 and (x - cx) ** 2 + (y - cy) ** 2 <= far]
+            if miss:
+                yield f"acs-not-disc-{name}", (f"{name} (no centre fraction): the ACS is not the sampled part of a disc about ({cx},{cy}): "
+                                               f"sampled cells {miss[:3]} lie inside its radius² {far} but are left out (frame {f})")
+                break
 
 
 # --------------------------------------------------------------------------------------------------
@@ -328,7 +385,7 @@ def hist_worker(name: str) -> G.Worker:
 
     k = "vdp" if name == "VariableDensityPoisson" else "main"
     if k not in _hist_workers:
-        _hist_workers[k] = G.Worker("props.c06_hist", "run_hist")
+        _hist_workers[k] = G.Worker("props.c06_hist", "run")
         atexit.register(_hist_workers[k].close)
     return _hist_workers[k]
 
@@ -445,7 +502,7 @@ def check_history(spec: dict, res: dict):
         return
     refs = res.get("refs", {})
     for i, (c, r) in enumerate(zip(spec["calls"], res["calls"])):
-        one = {"gen": name, "mode": spec["mode"], "shape": c["shape"], "acc": spec["acc"], "cf": spec["cf"]}
+        one = {"gen": name, "mode": spec["mode"], "shape": c["shape"], "acc": spec["acc"], "cf": spec["cf"], "extra": spec.get("extra", {})}
         ref_m = refs.get(H._key(dict(c, return_acs=False)))
         ref_a = refs.get(H._key(dict(c, return_acs=True)))
         known = next((x for x in (ref_m, ref_a) if x and x.get("draws")), None)
@@ -454,8 +511,10 @@ def check_history(spec: dict, res: dict):
         pair = G.chosen(one, known)           # the pair this seed selects on a fresh object
         tag = f" [call {i} of a history on one object: seed={H.seed_text(c['seed'])}, shape={c['shape']}]"
         if c["return_acs"]:
-            if r.get("ok") is not True and ref_a and ref_a.get("ok"):
-                yield f"history/acs-raises-{name}", f"{name}: the ACS request raises {r.get('err')} on a used object, not on a fresh one" + tag, i
+            if r.get("ok") is not True:
+                # the pairs are feasible by construction: the autocalibration request has nothing to refuse
+                how = "on a used object, not on a fresh one" if ref_a and ref_a.get("ok") else "(also on a fresh object)"
+                yield f"history/acs-raises-{name}", f"{name}: the ACS request raises {r.get('err')}: {r.get('msg')} {how}" + tag, i
                 continue
             masks = [m for m in [ref_m] + [r2 for c2, r2 in zip(spec["calls"], res["calls"])
                                            if not c2["return_acs"] and c2["shape"] == c["shape"] and c2["seed"] == c["seed"]]
@@ -540,6 +599,74 @@ def history_oracle(ctx: Ctx, seen: set, deep: bool):
                                  "instance_attributes": {"before": res.get("attrs_before"), "after": res.get("attrs_after")}})
 
 
+def check_site(spec: dict, res: dict):
+    """C06 on what `CreateSamplingMask(..., return_acs=True)` stores for a sequence of samples; yields (key, what, i)"""
+    name = spec["gen"]
+    if not res.get("ok"):
+        return
+    for i, rec in enumerate(res["samples"]):
+        one = {"gen": name, "mode": spec["mode"], "shape": rec["eff_shape"], "acc": spec["acc"], "cf": spec["cf"], "extra": spec.get("extra", {})}
+        ref = rec.get("ref_mask") or {}
+        tag = f" [CreateSamplingMask(shape={spec.get('crop')}, return_acs=True), sample {i} '{rec['filename']}', k-space {spec['shape']}]"
+        if "err" in rec:
+            if ref.get("ok"):
+                yield f"site/raises-{name}", f"{name}: the transform raises {rec['err'].get('err')}: {rec['err'].get('msg')}" + tag, i
+            continue
+        if not ref.get("draws"):
+            continue
+        pair = G.chosen(one, ref)
+        for key, what in check_acs(one, rec["acs_mask"], rec["sampling_mask"], pair=pair):
+            yield "site/" + key, what + tag, i
+        if ref.get("ok"):
+            for key, what in check_acs(one, rec["acs_mask"], ref, pair=pair):
+                if key.startswith(("acs-not-subset", "acs-shape")):
+                    yield "site/" + key, what + " (mask: direct call with the file-name seed on the effective shape)" + tag, i
+
+
+def site_oracle(ctx: Ctx, seen: set, deep: bool):
+    """call sites outside subsample.py: the transform that produces both masks for every sample of a dataset"""
+    rng = ctx.rng
+    names = [n for n in G.GENERATORS if n != "VariableDensityPoisson"] + (["VariableDensityPoisson"] if (deep or ctx.thorough) else [])
+    per = ctx.budget(1, 4) * (2 if deep else 1)
+    for name in names:
+        for k in range(per):
+            modes = G.modes_of(name)
+            mode = modes[(k + gid(name)) % len(modes)]
+            small = name in ("VariableDensityPoisson", "KtRadial", "Gaussian2D", "Radial", "Spiral")
+            sh = G.sample_shape(rng, name, mode, rank=4 if mode != "static" else rng.choice([3, 4]), small=small)
+            crop = None
+            pick = rng.random()
+            sizes = [c for c in (G.SIZES[:10] if small else G.SIZES[:16])]
+            if pick < 0.6:         # explicit mask shape (rarely used option), smaller than the k-space, None entries allowed
+                lead = list(sh[:-3])
+                crop = lead + [rng.choice([c for c in sizes if c <= sh[-3]] or [sh[-3]]), rng.choice([c for c in sizes if c <= sh[-2]] or [sh[-2]])]
+                if pick < 0.25:
+                    crop[rng.randrange(len(crop))] = None
+            eff = sh if crop is None else [c if c else sh[:-1][i] for i, c in enumerate(crop)] + [2]
+            cfg = multi_config(rng, name, [eff], rng.choice([2, 3]))
+            if cfg is None:
+                continue
+            fnames = ["file_%04d.h5" % rng.randrange(10000) for _ in range(3)] + ["a", "0"]
+            spec = {"kind": "site", "gen": name, "mode": mode, "acc": cfg[0], "cf": cfg[1], "shape": sh, "crop": crop, "filenames": fnames}
+            if name == "VariableDensityPoisson":
+                spec["extra"] = {"max_attempts": 5}
+            res = hist_worker(name).run(spec, 90.0)
+            if res.get("hang") or res.get("died"):
+                key = f"hang-{name}" if res.get("hang") else f"generator-crashes/{name}"
+                if key not in seen:
+                    seen.add(key)
+                    yield Violation(key, f"{name}: CreateSamplingMask on {len(fnames)} samples " + ("hung" if res.get("hang") else "killed its process"),
+                                    {"op": "acs-site", "spec": spec})
+                continue
+            okc = sum(1 for r in res.get("samples", []) if "err" not in r)
+            ctx.count(("site", json.dumps(spec, sort_keys=True)), okc >= 2,
+                      bucket=f"oracle/site/{name}/" + ("kspace-shape" if crop is None else "crop" + ("+None" if None in crop else "")))
+            for key, what, i in check_site(spec, res):
+                if key not in seen:
+                    seen.add(key)
+                    yield Violation(key, what, {"op": "acs-site", "spec": dict(spec, filenames=fnames[:i + 1]), "sample": i, "key": key})
+
+
 def oracle(ctx: Ctx, deep: bool = False):
     """The property stated directly on the implementation (independent of the model)."""
     from direct.common import subsample as S
@@ -593,6 +720,13 @@ def oracle(ctx: Ctx, deep: bool = False):
                 yield Violation(key, f"{name}: {got} ACS columns, requested {G.num_low_freqs(name, cols, cf)} capped by the budget "
                                 f"round({cols}/{acc}) = {target} -> expected {want}",
                                 {"op": "magic-cap", "spec": spec, "expected": want, "observed": got})
+    # (1c) the recorded finding, on its minimal configuration (so that it is reported on every run, not by chance)
+    acs, mask = run(dict(VDP_CROP_WITNESS, return_acs=True)), run(VDP_CROP_WITNESS)
+    ctx.count(("vdp-crop-witness",), True, bucket="oracle/VariableDensityPoisson/crop-corner-witness")
+    for key, what in check_acs(VDP_CROP_WITNESS, acs, mask):
+        if key not in seen:
+            seen.add(key)
+            yield Violation(key, what, {"op": "acs-pair", "spec": VDP_CROP_WITNESS, "acs_rows": acs.get("rows"), "mask_rows": mask.get("rows")})
     # (2) generators: ACS vs mask with the same arguments
     per_gen = ctx.budget(12, 300) * (3 if deep else 1)
     for name in G.GENERATORS:
@@ -613,13 +747,20 @@ def oracle(ctx: Ctx, deep: bool = False):
             ctx.count(("acs", json.dumps(spec, sort_keys=True)), both and any(acs.get("rows") or []),
                       bucket=f"oracle/{name}/" + ("pair" if both else "raised" if not (acs.get("hang") or mask.get("hang")) else "hang")
                              + ("/edge-seed" if edge else "") + ("/multi" if isinstance(spec["acc"], list) else ""))
-            for key, what in check_acs(spec, acs, mask):
+            found = list(check_acs(spec, acs, mask))
+            if not acs.get("ok") and not acs.get("hang") and not acs.get("harness_exception"):
+                # feasible pair, admissible seed: the autocalibration request has nothing to refuse
+                found.append((f"acs-raises-{name}", f"{name} ({spec['mode']}, shape {spec['shape']}, seed {spec['seed']}): the ACS request raises "
+                              f"{acs.get('err')}: {acs.get('msg')}"))
+            for key, what in found:
                 if key not in seen:
                     seen.add(key)
                     yield Violation(key, what, {"op": "acs-pair", "spec": spec,
                                                 "acs_rows": (acs.get("rows") or [])[:4], "mask_rows": (mask.get("rows") or [])[:4]})
     # (3) persistent objects, several pairs, interleaved mask / ACS requests, edge seeds
     yield from history_oracle(ctx, seen, deep)
+    # (4) the transform that hands both masks to the pipeline, explicit mask shapes included
+    yield from site_oracle(ctx, seen, deep)
     yield from hang_violations(seen)
 
 
@@ -633,7 +774,7 @@ def replay(rep: dict) -> bool:
         spec = rep["spec"]
         w = worker()
         acs, mask = w.run(dict(spec, return_acs=True), TIMEOUT), w.run(dict(spec, return_acs=False), TIMEOUT)
-        return bool(list(check_acs(spec, acs, mask))) or bool(acs.get("hang") or mask.get("hang"))
+        return bool(list(check_acs(spec, acs, mask))) or bool(acs.get("hang") or mask.get("hang")) or not acs.get("ok")
     if op == "acs-history":
         spec = rep["spec"]
         for _ in range(3):               # seeds replaced by OS entropy make single runs probabilistic
@@ -641,6 +782,10 @@ def replay(rep: dict) -> bool:
             if res.get("hang") or res.get("died") or any(True for _k in check_history(spec, res)):
                 return True
         return False
+    if op == "acs-site":
+        spec = rep["spec"]
+        res = hist_worker(spec["gen"]).run(spec, 90.0)
+        return bool(res.get("hang") or res.get("died") or any(True for _k in check_site(spec, res)))
     if op == "magic-cap":
         res = worker().run(rep["spec"], TIMEOUT)
         got = bin(res["rows"][0]).count("1") if res.get("ok") and res.get("rows") else None
